@@ -276,6 +276,33 @@ def run_isolation(sources, refs, ops, case, res=None):
                                       'after step %d an untouched tree of %r changed' % (step, sources[si][:80]))
 
     fresh_checks(0)
+    # equal option VALUES give equal results whatever objects carry them: every ordered pair of same-shape skip lists,
+    # back to back on the sources that contain such environments, each call with freshly built tuples
+    sk_opts = [o for o in OPTIONS if set(o) == {'skip_envs'}]
+    for si, s_ in enumerate(sources):
+        if not any('\\begin{%s}' % nm in s_ for o in sk_opts for nm in o['skip_envs']):
+            continue
+        for oa in sk_opts:
+            for ob in sk_opts:
+                if oa is ob or len(oa['skip_envs']) != len(ob['skip_envs']):
+                    continue
+                outs = []
+                for o in (oa, ob):
+                    try:
+                        outs.append(O.canon_tree(TexSoup(s_, **fresh_options(o)), skip=o['skip_envs']))
+                    except (EOFError, TypeError, AssertionError) as e:
+                        outs.append(('raise', type(e).__name__))
+                key = ('pair', si, OPTIONS.index(ob))
+                if key not in optrefs:
+                    try:
+                        optrefs[key] = O.canon_tree(TexSoup(s_, **ob), skip=ob['skip_envs'])
+                    except (EOFError, TypeError, AssertionError) as e:
+                        optrefs[key] = ('raise', type(e).__name__)
+                if outs[1] != optrefs[key]:
+                    raise H.Violation('C17:isolation:option-parse-differs', case,
+                                      'parsing %r with %r directly after parsing it with %r differs from the same call made alone: %s' % (
+                                          s_[:80], ob, oa, O.first_diff(outs[1], optrefs[key]) if isinstance(outs[1], tuple) and outs[1][:1] != ('raise',) else outs[1]))
+                flags.add('back-to-back-different-options')
     for k, (code, a, b) in enumerate(ops):
         code = code % 4
         if code in (0, 1) and (a + b) % 5 == 0:
@@ -338,9 +365,9 @@ def run_isolation(sources, refs, ops, case, res=None):
 # ---------------------------------------------------------------- plan
 
 def plan(ctx):
-    return [('shard_forms', [('forms', ctx.pick(60, 3000), i) for i in range(16)]),
+    return [('shard_forms', [('forms', ctx.pick(30, 3000), i) for i in range(16)]),
             ('stage_hashseeds', [('hash', ctx.pick(16, 96), ctx.pick(700, 4000))]),
-            ('shard_isolation', [('iso', ctx.pick(60, 1500), i) for i in range(16)]),
+            ('shard_isolation', [('iso', ctx.pick(45, 1500), i) for i in range(16)]),
             ('shard_bigforms', [('big', size, form) for size in ctx.pick((8191, 8193, 65535, 65537, 131073), (8191, 8192, 8193, 65535, 65536, 65537, 131073, 262145, 300000))
                                 for form in ('stringio', 'file', 'lines', 'gen-chunks-4096')])]
 
